@@ -157,6 +157,12 @@ where
             wave_in_padded.push(vec![T::zero(); frames]);
         }
         if let Some(input) = wave_in {
+            if input.len() != self.nbr_channels() {
+                return Err(ResampleError::WrongNumberOfInputChannels {
+                    expected: self.nbr_channels(),
+                    actual: input.len(),
+                });
+            }
             for (ch_input, ch_padded) in input.iter().zip(wave_in_padded.iter_mut()) {
                 let mut frames_in = ch_input.as_ref().len();
                 if frames_in > frames {
